@@ -4,7 +4,6 @@
 # This software is made available under the MIT licence, see LICENCE.txt.
 
 import functools
-import itertools
 import struct
 
 import numpy as np
@@ -136,15 +135,14 @@ def decode_chunk_into(chunk, buf, block_size):
         4 * ret[0]
         for ret in struct.iter_unpack("<I", buf[:4*num_channels])
     ]
-    for channel, (offset, next_offset) in enumerate(
-            itertools.zip_longest(channel_offsets,
-                                  channel_offsets[1:])):
-        # next_offset will be None for the last channel
+    for channel, offset in enumerate(channel_offsets):
         if offset + 8 * gx * gy * gz > len(buf):
             raise InvalidFormatError("compressed_segmentation channel offset "
                                      "is too large (truncated file?)")
+        # The format does not require channels to be stored in order, so the
+        # data of a channel may extend up to the end of the buffer.
         _decode_channel_into(
-            chunk, channel, buf[offset:next_offset], block_size
+            chunk, channel, buf[offset:], block_size
         )
 
     return chunk
